@@ -40,7 +40,7 @@ def selftest_for(pid, rep):
         return
     os.environ['VERIF_NO_SELFTEST'] = '1'
     bad = []
-    with ThreadPoolExecutor(8) as ex:
+    with ThreadPoolExecutor(int(os.environ.get('VERIF_SELFTEST_JOBS', '12'))) as ex:
         for mut, status, detail, res in ex.map(lambda m: st.run_one(m, 'quick'), muts):
             rep.count('self-test variants judged')
             if status == 'NOT-APPLICABLE':
